@@ -2,7 +2,7 @@
 # usage: seedcheck.sh <id> <pkgdir> <TestName>   -- verifies a seeded change from /tmp/seeds/<id>/out and runs ./check on it
 id=$1; pkg=$2; tn=$3
 export GOFLAGS=-mod=mod GOPROXY=off GOSUMDB=off GOTOOLCHAIN=local
-out=/tmp/seeds/$id/out; sd=/verif/seeded/$id; mkdir -p $sd
+out=${SEEDROOT:-/tmp/seeds}/$id/out; sd=/verif/seeded/$id${SEEDSUFFIX:-}; mkdir -p $sd
 cp $out/patch.diff $out/demo_test.go $sd/ 2>/dev/null
 cd /repo || exit 1
 git diff --quiet || { echo "repo dirty"; exit 1; }
